@@ -167,7 +167,7 @@ class Guard:
             bad = _finite_ok(out)
             if bad is None and isinstance(out, tuple) and len(out) == 2:
                 x, w = np.asarray(out[0]), np.asarray(out[1])
-                if w.ndim != 1 or (x.ndim >= 1 and x.shape[0] != w.shape[0] and x.size != w.size * max(1, x.shape[-1] if x.ndim > 1 else 1)):
+                if w.ndim != 1 or w.size == 0 or x.size == 0 or x.size % w.size != 0:      # nodes are n x d, possibly squeezed
                     bad = ("bad_shape", "nodes of shape %s with weights of shape %s" % (x.shape, w.shape))
             if bad:
                 self._ctx.fail(bad[0], "%s returns %s" % (name, bad[1]), inp)
@@ -1011,7 +1011,17 @@ def replay(data):
             return [num(i) for i in v]
         return float(Fraction(v)) if isinstance(v, str) and v != "identity" else v
     try:
-        if call in ("qnwtrap", "qnwsimp", "qnwlege", "qnwunif", "qnwbeta", "qnwgamma", "qnwcheb"):
+        if "args" in inp and call and hasattr(Q, call):
+            args = [np.array(a) if isinstance(a, list) else a for a in inp["args"]]
+            if any(a == "<function>" for a in inp["args"] if isinstance(a, str)):
+                print("call takes a function argument; not replayed")
+                return 0
+            with quiet_stdout():
+                out = getattr(Q, call)(*args, **inp.get("kwargs", {}))
+            out = out if isinstance(out, tuple) else (out,)
+            print("output shapes", [np.shape(o) for o in out], "all finite:", all(np.isfinite(np.asarray(o, dtype=float)).all() for o in out),
+                  "mass", float(np.sum(out[-1])))
+        elif call in ("qnwtrap", "qnwsimp", "qnwlege", "qnwunif", "qnwbeta", "qnwgamma", "qnwcheb"):
             with quiet_stdout():
                 x, w = getattr(Q, call)(num(inp["n"]), num(inp["a"]), num(inp["b"]))
             print("nodes", np.asarray(x)[:8].tolist(), "weights", np.asarray(w)[:8].tolist(), "mass", float(np.sum(w)))
